@@ -202,8 +202,9 @@ Definition rprop (fuel : nat) (x0 : vec) : outcome * trace :=
 
 (* ================================================================ rprop/rprop_dense.go *)
 (* evalGradient(x2, gradient_new) overwrites gradient_new in place, so a rejected
-   point's gradient drives the retry; the stop test comes after the inner loop
-   and the function returns x1 (not yet overwritten by x2). *)
+   point's gradient drives the retry.  At HEAD (fix c65a3ee, 8bc6fe7): the gradient is
+   evaluated at x0 before the loop (an error or NaN there is returned), and
+   copy(x1, x2) comes BEFORE the stop test, so the point that passed is returned. *)
 
 Fixpoint rpd_inner (fuel : nat) (x1 x2 g step : vec) (tr : trace) : rp_inner_res :=
   match fuel with
@@ -243,19 +244,25 @@ Fixpoint rpd_loop (fuel : nat) (i : Z) (x1 x2 gnew step : vec) (tr : trace) : ou
         | RIErr tr2 => (Err x1, tr2)
         | RIOk x2' a step' tr2 =>
             let gnew' := a_g a in
-            if norm gnew' <. rp_eps P then (Converged x1, tr2)
+            (* copy(x1, x2) *)
+            if norm gnew' <. rp_eps P then (Converged x2', tr2)
             else rpd_loop f (i + 1) x2' x2' gnew' (rp_upd_step gold gnew' step') tr2
         end
     else (Cap x1, tr)
   end.
 
 Definition rprop_dense (fuel : nat) (x0 : vec) : outcome * trace :=
-  let n := length x0 in
   let x1 := x0 in
   let ok := if rp_cons P then CS 0 x1 else true in
   let tr0 := if rp_cons P then [EvCons x1 ok] else [] in
   if negb ok then (Err x1, tr0)
-  else rpd_loop fuel 0 x1 x1 (repeat on n) (repeat (rp_step0 P) n) tr0.
+  else
+    (* compute partial derivatives at the initial value *)
+    let a := F (length tr0) (QGrad x1) in
+    let tr1 := EvEval (QGrad x1) a :: tr0 in
+    if a_err a then (Err x1, tr1)
+    else if any_nan (a_g a) then (Err x1, tr1)
+    else rpd_loop fuel 0 x1 x1 (a_g a) (repeat (rp_step0 P) (length x0)) tr1.
 
 End Rprop.
 
@@ -316,6 +323,7 @@ Definition ls_is_fuel (o : ls_out) : bool := match o with LSFuel => true | _ => 
 
 Section LineSearch.
 Variable lsq : A -> query.    (* how a step length becomes an objective call *)
+Variable lsc : A -> vec.      (* the point handed to the constraint callback for a step length *)
 Variable ls_hook : bool.
 Variable ls_cons : bool.
 
@@ -380,8 +388,8 @@ Fixpoint ls_cons_loop (fuel : nat) (aj : A) (tr : trace) : option (A * trace) :=
   match fuel with
   | O => None
   | S f =>
-    let ok := CS (length tr) [aj] in
-    let tr1 := EvCons [aj] ok :: tr in
+    let ok := CS (length tr) (lsc aj) in
+    let tr1 := EvCons (lsc aj) ok :: tr in
     if ok then Some (aj, tr1) else ls_cons_loop f (aj *. k_half K) tr1
   end.
 
@@ -430,9 +438,10 @@ End LineSearch.
 
 (* lineSearch.Run on a scalar objective *)
 Definition ls_scalar_query (a : A) : query := QGrad [a].
+Definition ls_scalar_point (a : A) : vec := [a].
 Definition line_search_run (hook cons : bool) (fuel : nat) (alpha1 : A) (maxEval : Z)
   : ls_out * trace :=
-  line_search ls_scalar_query hook cons fuel alpha1 maxEval [].
+  line_search ls_scalar_query ls_scalar_point hook cons fuel alpha1 maxEval [].
 
 (* ================================================================ bfgs.go *)
 
@@ -446,6 +455,9 @@ Variable P : bf_params.
 
 Definition bf_dir_query (x1 p1 : vec) (alpha : A) : query :=
   QDir (zipw (fun x p => x +. p *. alpha) x1 p1) p1.
+(* constraints_line: P2.VmulS(p1, alpha); X2.VaddV(x1, P2); constraints.Value(X2) *)
+Definition bf_cons_point (x1 p1 : vec) (alpha : A) : vec :=
+  zipw (fun x p => x +. p *. alpha) x1 p1.
 
 Definition bf_updateH (n : nat) (g1 g2 p2 : vec) (H1 : mat) : option mat :=
   let s := p2 in
@@ -476,7 +488,7 @@ Fixpoint bf_loop (fuel : nat) (i : Z) (x1 x2 : vec) (y1 y2 : A) (g1 g2 : vec) (H
     if i <? bf_maxit P then
       let n := length x1 in
       let p1 := map (neg NM) (mdotv H1 g1) in
-      let r := line_search (bf_dir_query x1 p1) false false f on 100 tr in
+      let r := line_search (bf_dir_query x1 p1) (bf_cons_point x1 p1) false (bf_cons P) f on 100 tr in
       if ls_is_fuel (fst r) then (OutOfFuel, snd r)
       else
         let lo := fst r in
@@ -562,6 +574,8 @@ Fixpoint ad_upd (x1 m v g : vec) (b1t b2t : A) : option (vec * vec * vec) :=
   | _, _, _, _ => Some ([], [], [])
   end.
 
+(* At HEAD (fix f6a3a16): copy(x1, x2) comes right after the NaN / constraints checks, so x1
+   is always the last evaluated and accepted point; errors before it return the previous x1 *)
 Fixpoint ad_loop (fuel : nat) (i : Z) (x1 x2 m v : vec) (b1t b2t : A) (tr : trace)
   : outcome * trace :=
   match fuel with
@@ -579,15 +593,16 @@ Fixpoint ad_loop (fuel : nat) (i : Z) (x1 x2 m v : vec) (b1t b2t : A) (tr : trac
           let tr2 := if ad_cons P then EvCons x2 ok :: tr1 else tr1 in
           if negb ok then (Err x1, tr2)
           else
-            let h := mkHook x1 g None [] in
+            (* x2 is evaluated and accepted: copy(x1, x2) *)
+            let h := mkHook x2 g None [] in
             let stop := if ad_hook P then HK (length tr2) h else false in
             let tr3 := if ad_hook P then EvHook h stop :: tr2 else tr2 in
-            if stop then (HookStop x1, tr3)
-            else if norm g <. ad_eps P then (Converged x1, tr3)
-            else match ad_upd x1 m v g b1t b2t with
-                 | None => (Err x1, tr3)
+            if stop then (HookStop x2, tr3)
+            else if norm g <. ad_eps P then (Converged x2, tr3)
+            else match ad_upd x2 m v g b1t b2t with
+                 | None => (Err x2, tr3)
                  | Some (x2', m', v') =>
-                     ad_loop f (i + 1) x2' x2' m' v' (b1t *. ad_beta1 P) (b2t *. ad_beta2 P) tr3
+                     ad_loop f (i + 1) x2 x2' m' v' (b1t *. ad_beta1 P) (b2t *. ad_beta2 P) tr3
                  end
     else (Cap x1, tr)
   end.
